@@ -106,6 +106,24 @@ def lit(b):
 
 # ---------------------------------------------------------------- real code drivers
 
+_OPS = {}
+_USE = [0]
+
+
+def _op(kind, codec):
+    """two executions out of three re-subscribe an operator object that already served
+    earlier (possibly truncated) streams: operators are factories"""
+    _USE[0] += 1
+    mod = rx_module(codec)
+    make = mod.compress if kind == 'c' else mod.decompress
+    if _USE[0] % 3 == 0:
+        return make()
+    key = (kind, codec, id(mod))
+    if key not in _OPS:
+        _OPS[key] = make()
+    return _OPS[key]
+
+
 def _observe(subj, op):
     cur = []
     st = {'ended': 'open', 'n_terminal': 0}
@@ -133,7 +151,7 @@ def run_compress(codec, chunks):
     """-> (bytes emitted per item, bytes emitted at completion, ended)"""
     from rx.subject import Subject
     subj = Subject()
-    cur, st = _observe(subj, rx_module(codec).compress())
+    cur, st = _observe(subj, _op('c', codec))
     couts = []
     for c in chunks:
         try:
@@ -154,7 +172,7 @@ def run_decompress(codec, pieces):
     """-> (bytes emitted per piece, bytes emitted at completion, ended, err_at)"""
     from rx.subject import Subject
     subj = Subject()
-    cur, st = _observe(subj, rx_module(codec).decompress())
+    cur, st = _observe(subj, _op('d', codec))
     douts = []
     err_at = 0
     for j, c in enumerate(pieces):
@@ -726,6 +744,15 @@ def main(tier, replay):
             sizes, _ = random_feeds(rng, wire, couts, cfinal, small)
             return sizes
         add(record(codec, recipes, chunking=chunking), 'random')
+    # highly compressible data of several MiB: one compressed chunk expands to many
+    # internal buffer sizes of the decompressor
+    for codec in ('gzip', 'zstd'):
+        for n_mib, pat in ((3, '00'), (5, b'abcdefgh'.hex())) if thorough else ((3, '00'),):
+            recipes = [{'k': 'rep', 'pat': pat, 'n': n_mib * 1024 * 1024 + 17}]
+            add(record(codec, recipes, chunking=lambda wire, couts, cfinal: [len(wire)]), 'huge')
+            add(record(codec, recipes,
+                       chunking=lambda wire, couts, cfinal: sizes_from_cuts(
+                           list(range(1024, len(wire), 1024)), len(wire))), 'huge')
     V.phase('random executions')
 
     # 4. validation by TLC --------------------------------------------------------
